@@ -250,6 +250,7 @@ def run(ck, F, tier, only=None):
     ck.rule("K4", "constants named by the property")
     ck.rule("K5", "sign application: an outgoing message is negative exactly when the parity of negative inputs (XOR its own input's sign, where the own input takes part in the parity) is odd")
     ck.rule("K7", "fold step: the pairwise min* recurrence named by the property (approximation: positive term dropped and clamped at 0; A-Min*: exact)")
+    ck.rule("K8", "the variants apply exactly the hooks their names and documentation state (Jones clipping, partial hard limit, degree-one clipping): the documented exception of the magnitude bound applies to the *PartialHardLimit* types only (the rule C05-V4, run here)")
     ck.rule("K6", "every reduction ranges over exactly the messages of the node being processed (scratch vectors are read only over the prefix just written, zipped with the same message slice)")
     ck.assume("K3 compares independent implementations of the same rule; it cannot see an error made identically in both")
     impls = F.impls_of(TRAIT)
@@ -704,3 +705,8 @@ def run(ck, F, tier, only=None):
         m2 = app("max", num(Fraction("1e-30")), var("x"))
         ok = any(v == -app("ln", app("tanh", num(Fraction(1, 2)) * m)) for m in (m1, m2))
         ck.inst("K4", ty + ":phi", ok, pb.span, "phi(x) = -ln(tanh(0.5 * max(x, 1e-30))): %r" % (v,))
+    # K8: which variants may exceed the smallest other magnitude (partial hard limit) is a matter of the hooks each type is built with
+    if only is None:
+        from ..report import RuleAlias
+        from . import c05
+        c05.run(RuleAlias(ck, "K8", only=lambda r_, k_: r_ == "V4"), F, "quick", only=("V4",))
